@@ -509,7 +509,7 @@ def trivia_discipline(check: Check, repo: Repo, rules: dict) -> None:
 
 def run(tier: str) -> Check:
     check = Check("C10", tier, EXPLANATION)
-    check.rules = ["TOKEN-LANG", "KEYWORD-SHADOW", "ESCAPE-TABLE", "DISPATCH", "STRUCTURE", "SYNTAX", "TRIVIA"]
+    check.rules = ["TOKEN-LANG", "KEYWORD-SHADOW", "ESCAPE-TABLE", "STRUCTURE", "FRONT-END", "DISPATCH (second opinion)", "SYNTAX (second opinion)", "TRIVIA (second opinion)"]
     repo = Repo()
     meta_text = repo.read(META)
     rules = P.read_pest(meta_text, META)
@@ -527,13 +527,32 @@ def run(tier: str) -> Check:
     token_languages(check, repo, rules, consts)
     keyword_shadowing(check, repo, rules, consts)
     escape_tables(check, repo, rules)
-    dispatch(check, repo)
     structure(check, repo, rules)
-    skeleton(check, repo, rules)
-    trivia_discipline(check, repo, rules)
-    check.floor("trivia_typestate_steps", 300)
+    front_ok = front_end(check, repo, tier)
+    # structural readings of the scanner / token parser source: second opinions behind FRONT-END and STRUCTURE
+    check.second_opinion(lambda c: dispatch(c, repo), "FRONT-END", front_ok)
+    check.second_opinion(lambda c: skeleton(c, repo, rules), "FRONT-END", front_ok)
+    check.second_opinion(lambda c: trivia_discipline(c, repo, rules), "FRONT-END", front_ok)
+    check.floor("front_end_texts", 400)
     check.floor("token_language_comparisons", 17)
     check.floor("shadow_checks", 10)
     check.floor("structure_entries", 20)
-    check.floor("syntax_facts", 9)
     return check
+
+
+def front_end(check: Check, repo: Repo, tier: str) -> bool:
+    """FRONT-END (sa/frontsem.py): scanner and token parser together on model grammar texts, every case under
+    five placements of trivia; malformed shapes end in a grammar error."""
+    from ..frontsem import check_front_end
+
+    construct = f"{SCANNER}::tokenize / {PARSER}::Parser.parse"
+    n, bad = check_front_end(repo, "C10 FRONT-END", tier == "thorough")
+    check.count("front_end_texts", n)
+    check.oblige("FRONT-END", construct, f"on all {n} model grammar texts the front end builds the rule the text denotes (or refuses a malformed one with a grammar error)", True, sample=True)
+    cats: dict[str, list[str]] = {}
+    for cat, msg in bad:
+        cats.setdefault(cat, []).append(msg)
+    for cat, msgs in sorted(cats.items()):
+        sig = f"front end: {cat}"
+        check.oblige("FRONT-END", construct, sig, False, sample=True, finding=Finding("FRONT-END", construct, sig, f"{sig}: e.g. {msgs[0]} ({len(msgs)} of {n} model texts)", {"witness": msgs[0], "more": msgs[1:3]}))
+    return not bad
